@@ -172,4 +172,42 @@ def expected (c : Cfg) : Outcome :=
       | .nonMatching => .exit1 d
       | .malformed => .usageError
 
+/-! ### several OBJECT arguments -/
+
+/-- one command line: the options are shared, the OBJECT arguments differ in kind -/
+structure Cmd where
+  kinds : List ArgKind
+  type : TypeOpt
+  deref : Bool
+  filename : Bool
+  recursive : Bool
+  verify : VerifyOpt
+  exclude : Bool
+  deriving DecidableEq, Repr
+
+def Cmd.cfg (c : Cmd) (k : ArgKind) (recursive : Bool) : Cfg :=
+  ⟨k, c.type, c.deref, c.filename, recursive, c.verify, c.exclude⟩
+
+/-- output stops at the first usage error (it is raised after the earlier lines were printed) -/
+def takeUntilError : List Outcome → List Outcome
+  | [] => []
+  | .usageError :: _ => [.usageError]
+  | o :: t => o :: takeUntilError t
+
+/-- `identify` with any number of OBJECT arguments (click requires at least one):
+```
+if verify and len(objects) != 1: raise BadParameter("verification requires a single object")
+if recursive and not os.path.isdir(objects[0]): recursive = False
+if recursive: … objects[0] only …
+else: for obj in objects: echo(identify_object(obj))
+``` -/
+def identifyMany (c : Cmd) : List Outcome :=
+  match c.kinds with
+  | [] => [.usageError]
+  | k :: rest =>
+    if c.verify = .malformed then [.usageError]
+    else if c.verify ≠ .absent ∧ rest ≠ [] then [.usageError]
+    else if c.recursive && isdir k then [identify (c.cfg k true)]
+    else takeUntilError ((k :: rest).map (fun k' => identify (c.cfg k' false)))
+
 end Swh.Cli
